@@ -80,6 +80,10 @@ func runC02(run *Run, replay string) {
 				if !strings.HasPrefix(why, "wrong-file") && parserRangesCached(s, rr.Path)[rr.Rng] {
 					// copied verbatim from the HCL parser's (recovered) syntax tree
 					key = "C02/parser-supplied-range-malformed"
+				} else if strings.HasSuffix(rr.Rng.Filename, ".json") && jsonLineHasEscape(p, rr.Rng) {
+					// hashicorp/hcl parses the unescaped content of a JSON string as a template: positions
+					// behind an escape sequence are shifted (documented in hcl/json); hcl-lang passes them on
+					key = "C02/json-string-escape-shifts-parser-positions"
 				}
 				run.Violate(Violation{Key: key,
 					Rule: "every emitted range is a real, self-consistent place in the right file", Func: qn,
@@ -93,6 +97,23 @@ func runC02(run *Run, replay string) {
 		}
 	})
 	run.Res.Hypotheses["ranges_checked"] = nranges
+}
+
+// jsonLineHasEscape: the line the range starts on contains a backslash before the range's end
+func jsonLineHasEscape(p *PathData, r hcl.Range) bool {
+	src, ok := p.Src[r.Filename]
+	if !ok || r.Start.Byte < 0 || r.Start.Byte > len(src) {
+		return false
+	}
+	ls := r.Start.Byte
+	for ls > 0 && src[ls-1] != '\n' {
+		ls--
+	}
+	le := r.Start.Byte
+	for le < len(src) && src[le] != '\n' {
+		le++
+	}
+	return strings.Contains(string(src[ls:le]), "\\")
 }
 
 func rngString(rr RRange) string {
